@@ -99,7 +99,34 @@ def rule_wiring(ctx, repo):
     ms = repo.get_function(EV + '_CheckMultiSig')
     am = assigns(ms)
     r.check('FindAndDelete(script, CScript([sig]))' in am.get('script', []), 'multisig:subscript', ms.site, 'every signature push removed from the subscript', 'multisig subscript handling: %s' % am.get('script'))
-    r.check('stack[-isig]' in am.get('sig', []) and am.get('pubkey') == ['stack[-ikey]'], 'multisig:operands', ms.site, 'signature and key taken at their cursors', 'multisig operands: %s %s' % (am.get('sig'), am.get('pubkey')))
+    # the operands of every _CheckSig call in the loop, read through locals defined once
+    once = {k: v[0] for k, v in am.items() if len(v) == 1 and k.isidentifier()}
+    calls_ = [c_ for c_ in common.iter_calls(ms.node) if norm(c_.func) == '_CheckSig' and len(c_.args) >= 2]
+
+    def through(e_, call_):
+        t_ = norm(e_)
+        if not t_.isidentifier():
+            return t_
+        if t_ in once:
+            return once[t_]
+        # the last assignment in front of the call in the block that holds the call
+        for blk_ in [getattr(n_, f_) for n_ in ast.walk(ms.node) for f_ in ('body', 'orelse') if isinstance(getattr(n_, f_, None), list)]:
+            for k_, st_ in enumerate(blk_):
+                if any(x_ is call_ for x_ in ast.walk(st_)) and not any(any(x_ is call_ for x_ in ast.walk(sub_)) for sub_ in ast.iter_child_nodes(st_) if isinstance(sub_, ast.stmt)):
+                    for prev_ in reversed(blk_[:k_]):
+                        if isinstance(prev_, ast.Assign) and len(prev_.targets) == 1 and norm(prev_.targets[0]) == t_:
+                            return norm(prev_.value)
+                        if any(isinstance(x_, ast.Name) and x_.id == t_ and isinstance(x_.ctx, ast.Store) for x_ in ast.walk(prev_)):
+                            return t_
+        return t_
+    ops_ = [(through(c_.args[0], c_), through(c_.args[1], c_)) for c_ in calls_]
+    if ops_ and all(o_ == ('stack[-isig]', 'stack[-ikey]') for o_ in ops_):
+        r.ok('multisig:operands', ms.site, 'signature and key taken at their cursors')
+    elif any(re.match(r'^stack\[[^\]]*\]$', o_[0]) and re.match(r'^stack\[[^\]]*\]$', o_[1]) and o_ != ('stack[-isig]', 'stack[-ikey]') for o_ in ops_) \
+            and {'isig', 'ikey'} <= set(am):
+        r.violated('multisig:operands', ms.site, 'multisig operands: %s' % ops_)
+    else:
+        r.undecided('multisig:operands', ms.site, 'the operands of _CheckSig in the multisig loop (%s) were not recognised' % ops_)
     mcall = set()
     for pth in rows[(spec.OPCODES['OP_CHECKMULTISIG'], True)]:
         for s in pth.stmts():
